@@ -17,8 +17,8 @@ U == 640000
 
 MsAll   == {<<1, 64>>, <<1, 16>>, <<1, 4>>, <<1, 2>>, <<1, 1>>, <<2, 1>>}
 MsSmall == {<<1, 16>>, <<1, 2>>, <<2, 1>>}
-TausAll   == {<<1, 1>>, <<1, 2>>, <<1, 5>>, <<1, 20>>, <<7, 10>>}
-TausSmall == {<<1, 1>>, <<1, 5>>, <<1, 20>>}
+TausAll   == {<<1, 1>>, <<1, 2>>, <<1, 5>>, <<1, 20>>, <<7, 10>>, <<1, 8>>}     \* <<1, 8>>: transition_soc 0.875 (not a whole percent)
+TausSmall == {<<1, 1>>, <<1, 5>>, <<1, 20>>, <<1, 8>>}
 InitsAll   == {0, 32 * U, 44 * U, 51 * U, 51 * U + 2560, 60 * U, 63 * U, 64 * U - 512, 64 * U}
 InitsMid   == {0, 44 * U, 51 * U + 2560, 63 * U, 64 * U}
 InitsSmall == {0, 48 * U, 63 * U}
@@ -54,6 +54,9 @@ PilotsSmall == {0, U, 16 * U, 128 * U}
 NoisesAll   == {-64 * U, -2 * U, 0, 2 * U, 64 * U}      \* "-big, -small, 0, small, big"
 NoisesSmall == {-64 * U, 0, 2 * U}
 NoNoise == {0}
+\* pilots of about 1e-6 of the capacity per period (with K = 32: multiples of 64 fine units; half a period of the
+\* smallest delivers 7.8e-7 of the capacity): a positive pilot delivers a positive amount, however small
+PilotsTiny == {0, 64, 128, 4 * U}
 
 View == <<bat, lo, hi, eLo, eHi, dLo, dHi, pE, mE, dec, tab, base, nops, last>>   \* everything but the history
 =============================================================================
